@@ -169,6 +169,26 @@ impl Monitor for C10 {
                 }
             }
         }
+        // ---- a position's weight is at least its LP amount: a user's newest weight covers the
+        // amounts of their open positions (small slack for the floors of partial closes / pieces)
+        {
+            let mut open_amt: BTreeMap<(String, String), u128> = BTreeMap::new();
+            for p in post.positions.iter().filter(|p| p.open) {
+                *open_amt.entry((p.lp_asset.denom.clone(), p.receiver.to_string())).or_insert(0) += p.lp_asset.amount.u128();
+            }
+            for ((denom, u), amt) in open_amt.iter() {
+                let latest = users.get(denom).and_then(|m| m.get(u)).and_then(|h| h.values().next_back().copied()).unwrap_or(0);
+                if latest + 16 < *amt {
+                    return Err(viol(
+                        "C10.weight_below_amount",
+                        format!("{} holds open positions of {amt} in {denom} but their newest weight is {latest} (after {} {})", c.w.a.name(u), step.op.kind(), if out.ok() { "ok" } else { "rejected" }),
+                    ));
+                }
+                if latest > amt.saturating_mul(16).saturating_add(16) {
+                    return Err(viol("C10.weight_above_16x", format!("{} holds {amt} in {denom} but their newest weight is {latest} > 16x", c.w.a.name(u))));
+                }
+            }
+        }
         // ---- a user without open positions in an LP token has no weight in it
         for (denom, us) in users.iter() {
             for (u, h) in us.iter() {
